@@ -29,6 +29,8 @@ class Check(BaseCheck):
             v, t = c["v"], c["t"]
             if len(np.unique(t)) != len(v):
                 continue
+            if c.get("vdtype") != "int64":
+                v = v * float(rng.choice([1.0, 1.0, 1e-6, 1e3]))      # the averaging weights do not depend on the unit of length
             cols = int(rng.integers(1, 4))
             mode = ["unit", "unit", "offset", "tiny"][int(rng.integers(0, 4))]
             shape = lambda a: {"unit": a, "offset": 1e4 + 1e-2 * a, "tiny": 1e-9 * a}[mode]   # noqa: E731
